@@ -160,7 +160,7 @@ func (e *Exec) loadAddr(fr *frame, st *State, a *Addr, pos token.Pos) Val {
 		return Val{T: sel(e.heapTerm(st, e.boxHeap(t)), a.Ref), S: s, GoT: t}
 	case aElem:
 		h := e.heapTerm(st, e.elemHeap(t))
-		return Val{T: sel(sel(h, slRef(a.Sl)), add(slOff(a.Sl), a.Idx)), S: s, GoT: t}
+		return Val{T: e.elemAt(h, t, a.Sl, a.Idx), S: s, GoT: t}
 	case aSub:
 		base := e.loadAddr(fr, st, a.Base, pos)
 		si := e.ctx.structSort(a.Base.ElemT)
